@@ -15,8 +15,11 @@ for d in sorted(glob.glob('/verif/seeded/C*')):
     if not c:
         continue
     sid = os.path.basename(d)
+    if os.path.exists(f'/tmp/ts/sweep_{sid}.txt') and os.path.getsize(f'/tmp/ts/sweep_{sid}.txt') > 0 and os.environ.get('SWEEP_RESUME'):
+        continue
     print(f"/verif/tools/try_seed_wt.sh {d}/patch.diff {c.group(1)} quick | head -1 > /tmp/ts/sweep_{sid}.txt 2>&1")
 PY
 wc -l /tmp/sweep_jobs.txt
 /verif/tools/pool.sh $par /tmp/sweep_jobs.txt
 for f in /tmp/ts/sweep_*.txt; do sid=$(basename $f .txt); sid=${sid#sweep_}; echo -e "$sid\t$(cat $f | sed 's/^[^:]*: //')"; done > /verif/seeded/DETECTION.tsv
+sed -i "1i # re-verification sweep (tools/sweep_seeds.sh): seed, result of its detecting check (quick tier) on the final tree + patch" /verif/seeded/DETECTION.tsv
